@@ -1391,11 +1391,34 @@ theorem eff_some {id : Nat} {f : Dep → Dep} {ids : List Nat} {d d' : Dep} (h :
 
 /-! ## selection -/
 
+theorem mem_insertNewest {x d : Dep} {l : List Dep} : x ∈ insertNewest d l ↔ x = d ∨ x ∈ l := by
+  induction l with
+  | nil => simp [insertNewest]
+  | cons y ys ih =>
+    unfold insertNewest
+    split
+    · simp
+    · simp only [List.mem_cons, ih]
+      constructor
+      · rintro (h | h | h)
+        · exact Or.inr (Or.inl h)
+        · exact Or.inl h
+        · exact Or.inr (Or.inr h)
+      · rintro (h | h | h)
+        · exact Or.inr (Or.inl h)
+        · exact Or.inl h
+        · exact Or.inr (Or.inr h)
+
+theorem mem_newestFirst {x : Dep} {l : List Dep} : x ∈ newestFirst l ↔ x ∈ l := by
+  unfold newestFirst
+  induction l with
+  | nil => simp
+  | cons y ys ih => simp only [List.foldr_cons, mem_insertNewest, ih, List.mem_cons]
+
 theorem filterCanary_mem {br : BR} {ds : List Dep} {tpl : Option Template} {d : Dep}
     (h : filterCanary br ds tpl = some d) : d ∈ ds := by
   unfold filterCanary at h
-  have hm : ∀ x, x ∈ newestFirst ds → x ∈ ds := fun x hx => by
-    unfold newestFirst at hx; exact List.mem_mergeSort.mp hx
+  have hm : ∀ x, x ∈ newestFirst ds → x ∈ ds := fun x hx => mem_newestFirst.mp hx
   split at h
   · cases h
   · rename_i d0 rest heq
@@ -1407,7 +1430,7 @@ theorem filterCanary_none {br : BR} {ds : List Dep} {t : Template}
     (h : filterCanary br ds (some t) = none) : ∀ d ∈ ds, eqIgnore br t d.template = false := by
   unfold filterCanary at h
   intro d hd
-  have hd' : d ∈ newestFirst ds := by unfold newestFirst; exact List.mem_mergeSort.mpr hd
+  have hd' : d ∈ newestFirst ds := mem_newestFirst.mpr hd
   split at h
   · rename_i heq; rw [heq] at hd'; cases hd'
   · rename_i d0 rest heq
